@@ -11,6 +11,8 @@ JUDGE_API = {}
 
 
 def run(ctx):
+    ctx.stream("tu", c01.deep_cert_lines(ctx), "large 3-sum matrices, 'no' answers certified by their submatrix",
+               judge_api="tu_cert", describe=lambda c: CODES.get(c, str(c)), nontrivial=c01.nontrivial, keyfn=c01.keyfn)
     lines = c01.tu_lines(ctx, 1)
     ctx.stream("tu", lines, "tu with violator requested", describe=lambda c: CODES.get(c, str(c)),
                nontrivial=c01.nontrivial, keyfn=c01.keyfn,
